@@ -106,7 +106,10 @@ fn scenarios(ctx: &Ctx) -> Vec<Scenario> {
         scenario("2t-two-pools-3MiB", b2, vec![vec![Op::Alloc(1, 3 * MIB)], vec![Op::Alloc(0, 3 * MIB)]]),
         scenario("2t-same-pool-3MiB", b2, vec![vec![Op::Alloc(1, 3 * MIB)], vec![Op::Alloc(1, 3 * MIB)]]),
         scenario("2t-alloc-release-vs-alloc", b2, vec![vec![Op::AllocRelease(1, 3 * MIB), Op::Alloc(1, MIB + MIB / 2)], vec![Op::Alloc(0, 3 * MIB)]]),
-        scenario("2t-release-vs-observed-alloc", 3, vec![vec![Op::AllocRelease(1, 3 * MIB), Op::AllocRelease(1, 2 * MIB)], vec![Op::AllocObserve(0, 3 * MIB)]]),
+        // requests a little above half the limit: at most one can be outstanding, so a thread that was just
+        // granted one must read total_used() <= limit
+        scenario("2t-release-vs-observed-alloc", 3, vec![vec![Op::AllocRelease(1, 2 * MIB + 4096), Op::AllocRelease(1, 2 * MIB + 4096)], vec![Op::AllocObserve(0, 2 * MIB + 4096)]]),
+        scenario("2t-release-vs-observed-alloc-shared", 3, vec![vec![Op::AllocRelease(0, 2 * MIB + 4096)], vec![Op::AllocObserve(4, 2 * MIB + 4096), Op::AllocObserve(4, MIB)]]),
         scenario("2t-shared-vs-query", b2, vec![vec![Op::Alloc(4, 3 * MIB)], vec![Op::Alloc(1, MIB + MIB / 2), Op::Alloc(1, MIB + MIB / 2)]]),
         scenario("3t-three-pools", if q { 3 } else { 4 }, vec![vec![Op::Alloc(0, MIB + MIB / 2)], vec![Op::Alloc(1, MIB + MIB / 2)], vec![Op::Alloc(2, MIB + MIB / 2)]]),
     ];
@@ -122,7 +125,7 @@ impl Check for C39 {
         let mut s = Spec::new(
             "C39",
             "model_checking",
-            "every schedule with at most c preemptions (scheduling points = every atomic load/CAS of budget.rs) of 2-3 threads x 1-2 allocate/release calls near a 4 MiB limit, same and different pools; 2 threads: c=6 (quick) / 10 (thorough), 3 threads: c=3/4. A state = one complete schedule (distinct by construction); oracle evaluated at quiescence against a ledger of successful calls.",
+            "every schedule with at most c preemptions (scheduling points = every atomic load/CAS of budget.rs) of 2-3 threads x 1-2 allocate/release calls near a 4 MiB limit, same and different pools; 2 threads: c=6 (quick) / 10 (thorough), 3 threads: c=3/4. A state = one complete schedule (distinct by construction); oracles: at quiescence against a ledger of successful calls; in two scenarios (c=3) additionally total_used() <= limit read by the thread that was just granted a request of limit/2+4 KiB while it holds the grant (at most one such request can be outstanding, the other thread touches one pool only, so the read is the usage of one instant).",
         );
         s.assumptions = &["sequentially consistent atomics (shuttle)"];
         s.cap_quick_s = 90;
